@@ -1122,6 +1122,7 @@ impl Hasher {
             self.chunk_state.flags,
             self.chunk_state.platform,
         );
+        self.initial_chunk_counter = 0;
         self.cv_stack.clear();
         self
     }
